@@ -19,7 +19,7 @@ from .C05 import same_value
 
 PROPERTY = "C11"
 NUM = 11
-RULE = ("cases = azimuthal result with 1-8 azimuths x 2-15 windows per azimuth (equal or unequal counts) and a history of "
+RULE = ("cases = azimuthal result with 1-8 azimuths (one history case in 25: 10-30, the spacing of a routine sweep; two dense sweeps of 36/45 per run) x 2-15 windows per azimuth (equal or unequal counts) and a history of "
         "0-5 steps over {range update, FDWRA on the azimuthal object, time-domain rejection, manual per-azimuth rejection}; "
         "every state with >= 1 accepted window holding a peak on every azimuth (>= 2 in total) is judged for both "
         "distributions; non-trivial = unequal accepted counts across azimuths; distinct = (n azimuths, window counts, step "
@@ -28,7 +28,7 @@ ASSUMPTIONS = [
     "cached per-window peaks are taken from the object (C08 judges them)",
     "curve statistics weight the accepted windows (window mask), resonance statistics the accepted windows that hold a peak",
 ]
-NOT_REACHED = ["azimuths without any accepted window", "between 9 and 35 azimuths in this check"]
+NOT_REACHED = ["azimuths without any accepted window", "more than 45 azimuths"]
 BUDGET = {"quick": dict(cases=700, seconds=60, shards=4),
           "thorough": dict(cases=16000, seconds=600, shards=16)}
 REQUIRED = ["mon:weighted-estimator", "mon:variance-on-covariance-diagonal", "mon:single-azimuth-equals-traditional",
@@ -273,7 +273,8 @@ def build_large(rng):
 
 
 def fam_history(ctx, rng):
-    az = histories.build_azimuthal(rng)
+    # a routine sweep is 5, 10 or 15 degrees apart: 12-36 azimuths (one case in 25; the dense sweep above covers 36 and 45)
+    az = histories.build_azimuthal(rng, n_az=int(rng.choice([10, 12, 18, 24, 30])) if rng.random() < 0.04 else None)
     maybe_repeat_azimuth_value(rng, az)
     nontriv = judge_state(ctx, az, [], rng)
     steps_seen = []
